@@ -2,4 +2,4 @@ From UV Require Import Lib.Base Model.Async.
 Require Extraction.
 Require Import ExtrOcamlBasic.
 Extraction Language OCaml.
-Extraction "m_c09.ml" init step_gen mstep enabled quiescent visible run_gen N.of_nat.
+Extraction "m_c09.ml" init step_gen mstep enabled quiescent visible run_gen N.of_nat async_fork fork_sys sys_step.
